@@ -344,6 +344,9 @@ def r2_dtype(R) -> None:
                 raise Unsupported(f'{q}: __setattr__ call not found in the CFG')
             lt = tuple(x.id for lid in cn[0].loops for x in ast.walk(g.cfg.nodes[lid].ast.target) if isinstance(x, ast.Name)) if cn[0].loops else ()
             v = g.expand(cn[0].id, c.args[1], stop=lt)
+            memo = g.local_memo_read(cn[0].id, v)
+            if memo is not None:
+                v = memo
             nm_ = text(c.args[0])
             olds = {f"self.__getattribute__('_' + {nm_})", f"self.__dict__['_' + {nm_}]", f"getattr(self, '_' + {nm_})", f'self[{nm_}]', f'self.__getitem__({nm_})'}
             ok = False
@@ -397,7 +400,9 @@ def r3_raise_before_store(R) -> None:
     whole = si.nodes_with(lambda x: is_self_call(x, '__setattr__'))
     for n in whole:
         g = [(text(a), truth) for (a, truth, _t) in si.guard_atoms(n.id)]
-        ok = ("key not in self.__dict__['index']", False) in g or ("key in self.__dict__['index']", True) in g
+        call = [x for x in ast.walk(n.ast) if is_self_call(x, '__setattr__')][0]
+        nm = text(call.args[0]) if call.args else 'key'
+        ok = any(si.holds(n.id, f'{nm} in {idx_}') or si.holds(n.id, f'{nm} not in {idx_}', False) for idx_ in ("self.__dict__['index']", 'self.index'))
         R.check(ok, si.q, 'setitem-unknown-name', 'obj[name] = value for an unknown name raises KeyError before anything is set',
                 f'the whole-series path of __setitem__ is guarded by {g}: an unknown name is not rejected', where=si.where(n))
     # ModelInterface.add_variable: names extended only after the base call succeeded
